@@ -3,9 +3,9 @@
 #  - patch applies to a pristine export of /repo HEAD, the stock test suite builds and passes with it,
 #  - the demonstration fails with the change and passes without it.
 id=$1
-S=/tmp/seed/$id
+S=${SEEDBASE:-/tmp/seed}/$id
 P=$S/out/patch.diff
-W=/tmp/seed/$id/confirm
+W=$S/confirm
 rm -rf $W; mkdir -p $W/pristine $W/mod
 git -C /repo archive HEAD | tar -x -C $W/pristine
 git -C /repo archive HEAD | tar -x -C $W/mod
